@@ -112,7 +112,7 @@ def odd_tree(rng, maxfiles: int = 6):
 # --------------------------------------------------------------------------------- several roots
 MR_TEMPLATE = ["p/__init__.py", "p/__init__.pyi", "p/m.py", "p/m.pyi", "p/q/__init__.py", "p/q/m.py", "p/q/m.pyi",
                "p/q/m/__init__.py", "p/q/m/n.py", "p/m/__init__.py", "m.py", "m.pyi", "q/m.py", "q/__init__.py",
-               "p/q/r/__init__.pyi", "p/q/r/m.py"]
+               "p/q/r/__init__.pyi", "p/q/r/m.py", "p/__init__/m.py", "p/__init__/__init__.py", "p/q/__init__/m.pyi"]
 MR_ROOTS = ["r", "s", "t", "r/u"]
 
 
@@ -144,7 +144,7 @@ def multiroot_case(rng):
         rng.shuffle(args)
     else:
         args = rng.sample(files, rng.randint(1, len(files)))
-    pkg = rng.choice([None, None, "p", "p.q", "q"])
+    pkg = rng.choice([None, None, "p", "p.q", "q", "p.__init__"])
     return Case(entries=ents, args=args, cwd=cwd, mypy_path=mp, ns=ns, epb=epb, via_env=rng.random() < 0.25, pkg=pkg,
                 kind="multiroot:" + style)
 
